@@ -9,7 +9,8 @@
 //                                                                     -> ok <geom'> | err | err-modified <geom'>
 //   strips <0|1> <geom>    MeshStripifier, 1 = primitive restart with index 0xFFFFFFFF, 0 = degenerate triangles
 //                                                                     -> ok <indicesCSV> | fail
-//   buildmesh <nf> <na> {<attType> <dt> <nc> <nz> <kinds> <hex>}*     TriangleSoupMeshBuilder -> <geom> | null
+//   buildmesh <nf> <na> {<attType> <dt> <nc> <nz> <kinds> <hex>}*     TriangleSoupMeshBuilder -> <geom> || <again> | null
+//        <again>: both deduplications run once more on the finalized geometry (buildpc: only with <dedup> = 1)
 //        kinds: one char per face, '1' = SetPerFaceAttributeValueForFace (one value in <hex>), else
 //        SetAttributeValuesForFace (three values in <hex>)
 //   buildpc <np> <dedup> <na> {<attType> <dt> <nc> <nz> <mode> <hex>}*   PointCloudBuilder -> <geom> | null
@@ -232,7 +233,12 @@ VH_OP(buildmesh) {
   }
   std::unique_ptr<Mesh> m = b.Finalize();
   if (!m) return "null";
-  return dump_geom(m.get(), m.get());
+  // the deduplication the builder ran must have reached its fixed point
+  const std::string d1 = dump_geom(m.get(), m.get());
+  const bool r = m->DeduplicateAttributeValues();
+  m->DeduplicatePointIds();
+  const std::string d2 = dump_geom(m.get(), m.get());
+  return d1 + " || " + (d1 == d2 ? std::string("=") : d2) + (r ? "" : " || ret=false");
 }
 
 VH_OP(buildpc) {
@@ -269,5 +275,10 @@ VH_OP(buildpc) {
   }
   std::unique_ptr<PointCloud> pc = b.Finalize(dedup);
   if (!pc) return "null";
-  return dump_geom(pc.get(), nullptr);
+  const std::string d1 = dump_geom(pc.get(), nullptr);
+  if (!dedup) return d1;
+  const bool r = pc->DeduplicateAttributeValues();
+  pc->DeduplicatePointIds();
+  const std::string d2 = dump_geom(pc.get(), nullptr);
+  return d1 + " || " + (d1 == d2 ? std::string("=") : d2) + (r ? "" : " || ret=false");
 }
